@@ -538,6 +538,8 @@ impl TaskEmitter {
 
         // Record before publishing (see `emit_event` in session.rs): a late subscriber subscribes
         // first and snapshots second, so a published frame must already be in the buffer.
+        #[cfg(rip_verif)]
+        rip_kernel::verif::point("task.seq_chosen");
         let mut guard = self.events.lock().await;
         guard.push(event.clone());
         #[cfg(rip_verif)]
@@ -643,6 +645,60 @@ pub(crate) mod verif_hooks {
 
     use super::logs::{new_artifact_id, TaskLogWriter};
     use super::{TaskEmitter, TaskEngine, TaskEngineConfig, TaskSpawnPayload};
+
+    /// Several concurrent producers of ONE task stream, as the stdout pump, the stderr pump and the main
+    /// task of a pipes task are: clones of one real `TaskEmitter` over a handle that the router serves
+    /// (property C06).  `seq_free` / `buffer_free` are enabledness probes for a step scheduler.
+    #[derive(Clone)]
+    pub struct TaskStreamDriver {
+        handle: super::TaskHandle,
+        emitter: TaskEmitter,
+    }
+
+    impl TaskStreamDriver {
+        pub(crate) fn new(engine: &TaskEngine) -> (super::TaskHandle, Self) {
+            let handle = engine.create_task(&TaskSpawnPayload {
+                tool: "bash".to_string(),
+                args: Value::Null,
+                title: None,
+                execution_mode: None,
+                origin_session_id: None,
+            });
+            let emitter = TaskEmitter::new(&handle, engine.event_log.clone());
+            (handle.clone(), Self { handle, emitter })
+        }
+
+        pub fn task_id(&self) -> String {
+            self.handle.task_id.clone()
+        }
+
+        /// One `tool_task_output_delta` frame through the real `TaskEmitter::emit`.
+        pub async fn emit_output(&self, stderr: bool, chunk: &str) {
+            let stream = if stderr {
+                ToolTaskStream::Stderr
+            } else {
+                ToolTaskStream::Stdout
+            };
+            self.emitter
+                .emit(rip_kernel::EventKind::ToolTaskOutputDelta {
+                    task_id: self.handle.task_id.clone(),
+                    stream,
+                    chunk: chunk.to_string(),
+                    artifacts: None,
+                })
+                .await;
+        }
+
+        /// Whether the emitter's seq mutex is free right now.
+        pub fn seq_free(&self) -> bool {
+            self.emitter.seq.try_lock().is_ok()
+        }
+
+        /// Whether the history buffer's mutex is free right now.
+        pub fn buffer_free(&self) -> bool {
+            self.emitter.events.try_lock().is_ok()
+        }
+    }
 
     fn config(workspace_root: &Path, cap: usize, preview: usize) -> TaskEngineConfig {
         TaskEngineConfig {
